@@ -63,12 +63,15 @@ func (r *EntityLocal) AddFeature(f api.FeatureLocalInterface) {
 // either returns an existing feature or creates a new one
 // for a given entity, featuretype and role
 func (r *EntityLocal) GetOrAddFeature(featureType model.FeatureTypeType, role model.RoleType) api.FeatureLocalInterface {
-	if f := r.FeatureOfTypeAndRole(featureType, role); f != nil {
-		return f
-	}
-
 	r.mux.Lock()
 	defer r.mux.Unlock()
+
+	// look up and create in one critical section, so concurrent callers get one and the same feature
+	for _, f := range r.features {
+		if f.Type() == featureType && f.Role() == role {
+			return f
+		}
+	}
 
 	f := NewFeatureLocal(r.NextFeatureId(), r, featureType, role)
 
